@@ -129,8 +129,15 @@ class Selector:
         for n in ast.walk(node):
             if n is node:
                 continue
-            if isinstance(n, (ast.FunctionDef, ast.AsyncFunctionDef, ast.ClassDef, ast.Global, ast.Nonlocal, ast.Await)):
+            if isinstance(n, (ast.AsyncFunctionDef, ast.ClassDef, ast.Global, ast.Nonlocal, ast.Await)):
                 return False
+            if isinstance(n, ast.FunctionDef):
+                # a closure factory: fine as long as the inner function has no name in common with the helper's own locals
+                # (they could not be told apart when the locals are renamed)
+                inner_names = {a.arg for a in ast.walk(n.args) if isinstance(a, ast.arg)} | {
+                    x.id for x in ast.walk(n) if isinstance(x, ast.Name) and isinstance(x.ctx, ast.Store)}
+                if inner_names & _local_names(node):
+                    return False
             if isinstance(n, ast.Call) and isinstance(n.func, ast.Name) and n.func.id in ("locals", "vars", "globals", "super", "eval", "exec"):
                 return False
             if isinstance(n, ast.Yield) and not _is_stmt_yield(node, n):
@@ -155,6 +162,26 @@ class Selector:
                 pass
         return True
 
+    def _instance_class(self, scope: FunctionInfo, name: str):
+        """the class of ``name`` when it is bound exactly once, in ``scope`` or an enclosing function, to ``C()`` with C a
+        class of the program"""
+        g: Optional[FunctionInfo] = scope
+        while g is not None:
+            stores = [n for n in ast.walk(g.node) if isinstance(n, ast.Name) and n.id == name and isinstance(n.ctx, ast.Store)]
+            if name in g.params:
+                return None
+            if stores:
+                if len(stores) != 1:
+                    return None
+                for st in ast.walk(g.node):
+                    if isinstance(st, ast.Assign) and len(st.targets) == 1 and st.targets[0] is stores[0] and isinstance(st.value, ast.Call):
+                        r = self.p.resolve_expr(g.module, st.value.func, g)
+                        if r.kind == "class" and r.cls is not None and r.cls.module.kind in ("library", "config"):
+                            return r.cls
+                return None
+            g = g.parent
+        return None
+
     @staticmethod
     def _is_classmethod(f: FunctionInfo) -> bool:
         return any(norm(d) == "classmethod" for d in f.node.decorator_list)
@@ -172,6 +199,15 @@ class Selector:
             recv = fn.value
             if t is not None and t.is_static:
                 recv = None
+        elif isinstance(fn, ast.Attribute) and isinstance(fn.value, ast.Name) and self._instance_class(scope, fn.value.id) is not None:
+            # a method called on a local that is bound once to an instance of a (helper) class of the program
+            kcls = self._instance_class(scope, fn.value.id)
+            t = self.p.find_method(kcls, fn.attr)
+            recv = fn.value
+            if t is not None and t.is_static:
+                recv = None
+            if t is not None and (self.p.subclasses(kcls) or t.is_property):
+                t = None
         else:
             r = self.p.resolve_expr(scope.module, fn, scope)
             if r.kind == "func" and r.func is not None:
@@ -197,6 +233,9 @@ def _is_stmt_yield(fn: ast.FunctionDef, y: ast.Yield) -> bool:
 
 def _local_names(fn: ast.FunctionDef) -> Set[str]:
     names = {a.arg for a in fn.args.posonlyargs + fn.args.args + fn.args.kwonlyargs}
+    for st in ast.walk(fn):
+        if isinstance(st, (ast.FunctionDef, ast.ClassDef)) and st is not fn and any(st in getattr(h, "body", []) for h in [fn]):
+            names.add(st.name)
     for n in own_nodes(fn):
         if isinstance(n, ast.Name) and isinstance(n.ctx, (ast.Store, ast.Del)):
             names.add(n.id)
@@ -1184,6 +1223,69 @@ def fold_tuples(fn: ast.AST) -> int:
     return count
 
 
+# ------------------------------------------------------------------------------------------------ constant tests
+def fold_constant_tests(fn: ast.AST) -> int:
+    """``not True`` / ``False and x`` / ``if False: ..`` left behind by a literal argument: evaluated"""
+    count = 0
+
+    def truth(e: ast.AST) -> Optional[bool]:
+        if isinstance(e, ast.Constant) and isinstance(e.value, (bool, int, str, type(None))):
+            return bool(e.value)
+        return None
+
+    class E(ast.NodeTransformer):
+        def visit_UnaryOp(self, n: ast.UnaryOp):
+            nonlocal count
+            self.generic_visit(n)
+            if isinstance(n.op, ast.Not):
+                t = truth(n.operand)
+                if t is not None:
+                    count += 1
+                    return ast.copy_location(ast.Constant(value=not t), n)
+            return n
+
+        def visit_BoolOp(self, n: ast.BoolOp):
+            nonlocal count
+            self.generic_visit(n)
+            is_and = isinstance(n.op, ast.And)
+            vals = []
+            for v in n.values:
+                t = truth(v)
+                if t is None:
+                    vals.append(v)
+                    continue
+                if t != is_and:
+                    # False in an `and` / True in an `or`: decided here (what came before has no side effect we keep only if constant)
+                    if not vals:
+                        count += 1
+                        return ast.copy_location(ast.Constant(value=not is_and) if isinstance(v.value, bool) else v, n)
+                    vals.append(v)
+                    break
+                count += 1  # True in an `and` / False in an `or`: dropped
+            if not vals:
+                return ast.copy_location(ast.Constant(value=is_and), n)
+            if len(vals) == 1:
+                return vals[0]
+            n.values = vals
+            return n
+
+    E().visit(fn)
+    for blk in _blocks(fn):
+        i = 0
+        while i < len(blk):
+            st = blk[i]
+            i += 1
+            if isinstance(st, ast.If):
+                t = truth(st.test)
+                if t is None:
+                    continue
+                rep = st.body if t else st.orelse
+                blk[i - 1:i] = rep or ([ast.copy_location(ast.Pass(), st)] if len(blk) == 1 else [])
+                i += len(rep) - 1
+                count += 1
+    return count
+
+
 # ------------------------------------------------------------------------------------------------ class constants
 def fold_class_constants(p: Program, scope: FunctionInfo, fn: ast.AST) -> int:
     """``C.attr`` -> the literal, where C is a class of the program whose body binds ``attr`` once to a literal and nothing
@@ -1379,6 +1481,7 @@ def normalise(p: Program, vocab: Optional[Set[str]] = None) -> Tuple[Dict[str, a
         n_unrolled += unrolled + fused
         if len(inl.log) > before or unrolled or fused:
             fold_class_constants(p, f, tgt)
+            fold_constant_tests(tgt)
             forward_substitute(tgt)
             if push_continuation(tgt):
                 forward_substitute(tgt)
